@@ -1,14 +1,16 @@
 (** * The XPath evaluator, function by function (xpath/src/eval/mod.rs, eval/model.rs and the
     node-set functions of eval/func.rs).
 
-    This is the code of branch agent-xpath: the pinned tree plus the `fix:` commits D14 (name
-    tests respect the principal node type), D15 (following / preceding cover the document),
-    D22 (parent of a parentless node selects nothing), D23 ($v is an error), D24
+    This is the code of branch agent-xpath (main merged): the pinned tree with the repairs D14
+    (name tests respect the principal node type), D15 (following / preceding cover the document),
+    D16 (the document type is not selected), D17 (lang()), D22 (the parent of a parentless node
+    selects nothing; the parent of an attribute is its element), D23 ($v is an error), D24
     (processing-instruction('t')), D25 (id()), D27 (union sorts), D29 (numeric predicate compares
-    numbers), D50 (stacks popped before an error is propagated) and the absolute path from a
-    namespace node.  Still modelled as found: sorting and de-duplication BY ORDER KEY (so
-    D18 / D19 key collisions conflate nodes), the dom's sibling lookup by key (D21, in
-    Model/XDoc.v), [lang()] (D17), the document-type node among the children of the root (D16).
+    numbers), D50 (stacks popped before an error is propagated), D55 (attributes have no
+    children), the absolute path from a namespace node, unary minus once per sign, the repaired
+    scalar library (Model/XPathFuncs.v) and the dom's sibling lookup by id (D21) / PI keys (D18).
+    Still modelled as found: sorting and de-duplication BY ORDER KEY (so the D19 key collisions of
+    namespace nodes and DTD-default attributes conflate nodes).
 
     Conventions.  [ctx] is eval::model::Context: the position stack, the size stack and the
     namespace bindings; every function threads it and returns it ([M A = ctx -> res A * ctx]),
@@ -268,11 +270,22 @@ Definition rel_value (op : rel_op) (a b : xvalue) : res bool :=
 
 (** ** the axes (navigation through parent / children / siblings, as the Rust does) *)
 
+(** [fn parent(node)]: the owner element for an attribute, [parent_node()] otherwise -- both are
+    the [n_parent] observation of the row *)
+Definition xp_parent (i : node) : option node := parent_node doc i.
+
+(** [fn child(node)]: nothing for an attribute; the document type is skipped *)
+Definition xp_child (i : node) : list node :=
+  match kind doc i with
+  | KAttribute => []
+  | _ => filter (fun c => negb (nkind_eqb (kind doc c) KDocumentType)) (child_nodes doc i)
+  end.
+
 Fixpoint ancestor_fuel (fuel : nat) (i : node) : res (list node) :=
   match fuel with
   | O => OutOfFuel
   | S f =>
-      match parent_node doc i with
+      match xp_parent i with
       | None => Ok []
       | Some p => bind (ancestor_fuel f p) (fun l => Ok (p :: l))
       end
@@ -294,7 +307,7 @@ Fixpoint descendant_fuel (fuel : nat) (i : node) : res (list node) :=
   match fuel with
   | O => OutOfFuel
   | S f =>
-      flat_map_res (fun c => bind (descendant_fuel f c) (fun d => Ok (c :: d))) (child_nodes doc i)
+      flat_map_res (fun c => bind (descendant_fuel f c) (fun d => Ok (c :: d))) (xp_child i)
   end.
 
 Definition descendant (i : node) : res (list node) := descendant_fuel (nav_fuel doc) i.
@@ -313,16 +326,25 @@ Fixpoint sibling_loop (step : node -> option node) (fuel : nat) (cur : option no
       end
   end.
 
+(** the loops skip the document type declaration *)
+Definition not_doctype (l : list node) : list node :=
+  filter (fun c => negb (nkind_eqb (kind doc c) KDocumentType)) l.
+
 Definition following_sibling (i : node) : res (list node) :=
-  sibling_loop (next_sibling doc) (nav_fuel doc) (next_sibling doc i).
+  bind (sibling_loop (next_sibling doc) (nav_fuel doc) (next_sibling doc i)) (fun l => Ok (not_doctype l)).
 
 Definition preceding_sibling (i : node) : res (list node) :=
-  sibling_loop (previous_sibling doc) (nav_fuel doc) (previous_sibling doc i).
+  bind (sibling_loop (previous_sibling doc) (nav_fuel doc) (previous_sibling doc i)) (fun l => Ok (not_doctype l)).
 
 (** [for a in ancestor_and_self(node) { for n in following_sibling(a) { descendant_and_self(n) } }] *)
 Definition following (i : node) : res (list node) :=
+  bind (match kind doc i, xp_parent i with
+        | KAttribute, Some owner => descendant owner      (* the content of its element follows an attribute *)
+        | _, _ => Ok []
+        end) (fun pre =>
   bind (ancestor_and_self i) (fun al =>
-    flat_map_res (fun a => bind (following_sibling a) (flat_map_res descendant_and_self)) al).
+  bind (flat_map_res (fun a => bind (following_sibling a) (flat_map_res descendant_and_self)) al) (fun rest =>
+  Ok (pre ++ rest)))).
 
 Definition preceding (i : node) : res (list node) :=
   bind (ancestor_and_self i) (fun al =>
@@ -358,17 +380,17 @@ Definition is_attribute_axis (a : axis_spec) : bool :=
 
 Definition axis_nodes (a : axis_spec) (i : node) : res (list node) :=
   match a with
-  | AxisAbbreviated s => if str_eqb s s_at then Ok (attributes doc i) else Ok (child_nodes doc i)
+  | AxisAbbreviated s => if str_eqb s s_at then Ok (attributes doc i) else Ok (xp_child i)
   | AxisName AxAncestor => ancestor i
   | AxisName AxAncestorOrSelf => ancestor_and_self i
   | AxisName AxAttribute => Ok (attributes doc i)
-  | AxisName AxChild => Ok (child_nodes doc i)
+  | AxisName AxChild => Ok (xp_child i)
   | AxisName AxDescendant => descendant i
   | AxisName AxDescendantOrSelf => descendant_and_self i
   | AxisName AxFollowing => following i
   | AxisName AxFollowingSibling => following_sibling i
   | AxisName AxNamespace => namespace_axis i
-  | AxisName AxParent => Ok (opt_list (parent_node doc i))
+  | AxisName AxParent => Ok (opt_list (xp_parent i))
   | AxisName AxPreceding => preceding i
   | AxisName AxPrecedingSibling => preceding_sibling i
   | AxisName AxCurrent => Ok [i]
@@ -518,8 +540,32 @@ Definition fn_names (which : N) (args : list xvalue) (n : node) : res xvalue :=
         end
     end).
 
-(** [lang]: walk up while the node is an element; the first attribute whose local name is
-    "lang" (any namespace) must EQUAL the argument (D17 as found) *)
+(** [lang] (fix D17): from the context node upwards, the first attribute whose expanded name is
+    (lang, prefix "xml") decides: its value, in ASCII lower case, equals the argument or starts
+    with the argument followed by '-' *)
+Definition s_xml : str := [120;109;108].
+Definition ascii_lower (c : char) : char := if (65 <=? c) && (c <=? 90) then c + 32 else c.
+
+Fixpoint str_prefix (p s : str) : bool :=
+  match p, s with
+  | [], _ => true
+  | x :: p', y :: s' => (x =? y) && str_prefix p' s'
+  | _ :: _, [] => false
+  end.
+
+(** [for attr in attrs.iter() { if let Some((l, Some(p), _)) = attr.as_expanded_name()? ... }] *)
+Fixpoint find_xml_lang (l : list node) : res (option node) :=
+  match l with
+  | [] => Ok None
+  | a :: t =>
+      match name_of doc a with
+      | XNameErr => Err XErrDom
+      | XName local (Some p) _ =>
+          if str_eqb local fn_lang && str_eqb p s_xml then Ok (Some a) else find_xml_lang t
+      | _ => find_xml_lang t
+      end
+  end.
+
 Fixpoint lang_fuel (fuel : nat) (name : str) (cur : option node) : res bool :=
   match cur with
   | None => Ok false
@@ -527,16 +573,14 @@ Fixpoint lang_fuel (fuel : nat) (name : str) (cur : option node) : res bool :=
       match fuel with
       | O => OutOfFuel
       | S f =>
-          if nkind_eqb (kind doc e) KElement then
-            match find (fun a => match name_of doc a with
-                                 | XName l _ _ => str_eqb l fn_lang
-                                 | _ => false end) (attributes doc e) with
+          bind (find_xml_lang (attributes doc e)) (fun o =>
+            match o with
             | Some a =>
                 bind (data_res (n_data (getd doc a))) (fun v =>
-                  if str_eqb v name then Ok true else lang_fuel f name (parent_node doc e))
-            | None => lang_fuel f name (parent_node doc e)
-            end
-          else Ok false
+                  let v' := map ascii_lower v in
+                  Ok (str_eqb v' name || str_prefix (name ++ [45]) v'))
+            | None => lang_fuel f name (xp_parent e)
+            end)
       end
   end.
 
@@ -598,7 +642,7 @@ Definition exec_fn (local : str) (args : list xvalue) (n : node) : M xvalue :=
     else if str_eqb local fn_name then (fn_names 2 args n, c)
     else if str_eqb local fn_lang then
       (match args with
-       | a :: _ => bind (val_to_string a) (fun s => bind (lang_fuel (nav_fuel doc) s (Some n))
+       | a :: _ => bind (val_to_string a) (fun s => bind (lang_fuel (nav_fuel doc) (map ascii_lower s) (Some n))
                                                          (fun b => Ok (XBool b)))
        | [] => Panic end, c)
     else if str_eqb local fn_sum then
@@ -855,7 +899,7 @@ with eval_stepops (l : stepop_list) (nodes : list node) {struct l} : M (list nod
 with eval_step (s : step) (n : node) {struct s} : M (list node) :=
   match s with
   | StepCurrent => ret [n]
-  | StepParent => ret (opt_list (parent_node doc n))
+  | StepParent => ret (opt_list (xp_parent n))
   | StepTest axis test preds =>
       fun c =>
         match bind (axis_nodes axis n) (filter_res (eval_node_test (c_ns c) axis test)) with
